@@ -210,11 +210,30 @@ def i1(chk, repo, only=None, rule="I1", min_decided=12):
                 chk.undecided(rule, key, c.where, "", algebraic=True)
 
 
+def i4(chk, repo):
+    """One interpolant per quantity over the whole altitude range."""
+    chk.rule("I4", "AtmosComp evaluates every quantity with one interpolant of the altitude over the whole tabulated range: neither compute nor compute_partials (helpers included) branches on the altitude or the Mach number, so the outputs are as continuous as the splines", min_decided=2)
+    c = repo.cls("openaerostruct/common/atmos_comp.py", "AtmosComp")
+    m = component_model(repo, c)
+    for mn in ("compute", "compute_partials"):
+        for r in m.runs.get(mn, []):
+            if r.final is None:
+                continue
+            tests = [e for e in r.events if e.kind == "test" and any(str(d_).startswith("in:") for d_ in (e.d.get("dep") or ()))]
+            key = "AtmosComp.%s" % mn
+            if tests:
+                e = tests[0]
+                chk.violation("I4", key, "%s:%d" % (e.func.mod.rel, e.lineno), "the value is selected by a test on an input (%s in %s): a second formula is spliced into the tabulated atmosphere, which makes the outputs discontinuous where the test flips unless the two agree exactly there" % (" ".join((e.d.get("pred") or "").split())[:80], e.func.qual))
+            else:
+                chk.ok("I4", key, c.where, "no input-valued branch")
+
+
 def run(chk, repo, tier):
     from .c01 import p7
 
     i1(chk, repo)
     i3(chk, repo)
+    i4(chk, repo)
     p7(chk, repo, tier, only={"TotalLiftDrag", "Equilibrium", "BreguetRange", "CenterOfGravity", "ReynoldsComp", "Coeffs"}, rule="I2")
 
 
